@@ -552,4 +552,5 @@ func runC16(c *Ctx) {
 		}
 		c.Check(fresh && !put, "compressed body buffer is request-local", p.Pos(comp[0].Pos()), "freshly allocated in RoundTrip", "the buffer holding the compressed body is shared (pooled/reused) beyond RoundTrip: the transport may still be sending it when another request overwrites it")
 	}
+	runC16More(c)
 }
